@@ -14,6 +14,8 @@ AL = Sym("alpha", ("float", "notnone"))
 
 
 def run(ctx, chk, tier):
+    from . import c10 as _c10
+    _c10.copy_derivations(ctx, chk, rule="R14.6")   # objects derived by a shallow copy must not keep the parent's caches
     from . import c01 as _c01
     _c01.flag_identity(ctx, chk)   # direction flags: identity comparisons need BinaryLabel members on every construction path
     chk.rule_text = ("obligations per receiver class (Scores, GroupScores) x metric kind (callable, name): replicate loop, name resolution, CI assembly; custom sampler dispatch; "
